@@ -328,13 +328,14 @@ C03_CDIV = {
                       ('800001', [0x01, 0x00, 0x80, 0]), ('ffff01', [0x01, 0xff, 0xff, 0]), ('010001', [0x01, 0x00, 0x01, 0])]),
     'd16x3': (I(16, 3), [('80000001', [0x0001, 0x8000, 0]), ('ffffffff', [0xffff, 0xffff, 0]), ('00010001', [0x0001, 0x0001, 0]), ('7fffffff', [0xffff, 0x7fff, 0])]),
     'd32x3': (I(32, 3), [('8000000000000001', [0x00000001, 0x80000000, 0]), ('ffffffffffffffff', [0xffffffff, 0xffffffff, 0]), ('0000000100000001', [1, 1, 0])]),
+    'd64x2': (I(64, 2), [('1d8..03', [0x8000000000000003, 0]), ('1d3', [3, 0])]),
     'd64x3': (I(64, 3), [('8..01', [1, 0x8000000000000000, 0]), ('f..f', [0xffffffffffffffff, 0xffffffffffffffff, 0]), ('1_1', [1, 1, 0])]),
 }
 C03_CDIV_FAST = {'8001', '800001', '0101', 'ffff01', '010001', '80000001', '00010001'}  # 27-37 s each; the others take 130-960 s
 for key, (i, lst) in C03_CDIV.items():
     for tag, dv in lst:
         X = 'u64' if i.bits <= 32 else 'u128'
-        if i.bits > 64:
+        if i.bits > 128:
             continue
         add(H('C03', f"c03_u_cdiv_{i.tag}_{tag.replace('.', '').replace('_', '')}", 'c03_u_cdiv', f"{i.n + 2}, {i.U}, {i.digit}, {i.n}, {X}, [{', '.join(hex(v) for v in dv)}]", tier=('quick' if tag in C03_CDIV_FAST else 'thorough'), cap=(600 if tag in C03_CDIV_FAST else 3600), inst=i.label, core=False, mem_gb=8,
               funcs='BUint / and % (Knuth D: q-hat estimate, corrections, multiply-subtract, add-back at every quotient position)', bound=f'all dividends; concrete divisor 0x{tag}; postcondition n = q*d + r, r < d'))
